@@ -109,6 +109,11 @@ func (m vC27Mode) labelFilter() *FilterNode {
 // ---- environment -------------------------------------------------------------------------------
 
 type vC27Env struct {
+	// sibling: "" or "subscribed": a second connection of the same user (same labels) on the CALLING
+	// node, holding a server-side subscription to ch and a client-side one to cs, exists while the
+	// operation runs (Subscribe fails on it with "already subscribed", the other calls apply to it)
+	sibling string
+	byID    string // client id of the current sibling (its own frames / joins / leaves are not part of the outcome)
 	a, b  *vSoNode
 	epoch string
 	top   uint64
@@ -157,6 +162,39 @@ func (e *vC27Env) dropConn(sp *vSoConn) {
 	if nc := e.a.n.Hub().NumClients(); nc != 0 {
 		panic(fmt.Sprintf("verif: %d clients left after case", nc))
 	}
+}
+
+// bystander creates the sibling connection on the calling node (nil when the variant has none).
+func (e *vC27Env) bystander(m vC27Mode, remote bool) *vSoConn {
+	e.byID = ""
+	if e.sibling == "" {
+		return nil
+	}
+	so := SubscribeOptions{EmitPresence: true, EmitJoinLeave: true, PushJoinLeave: true}
+	by := &vSoConn{user: m.connUser(), info: []byte(`{"i":9}`), expireAt: e.now + 100, labels: map[string]string{"region": "eu"},
+		serverSubs: map[string]SubscribeOptions{vC27Ch: so}, clientOpts: map[string]SubscribeOptions{vC27Cs: so}}
+	node := e.a
+	if remote {
+		node = e.b
+	}
+	node.connect(by)
+	vsched.WaitIdle()
+	e.byID = by.cl.c.ID()
+	return by
+}
+
+func (e *vC27Env) dropBystander(by *vSoConn, remote bool) {
+	if by == nil {
+		return
+	}
+	node := e.a
+	if remote {
+		node = e.b
+	}
+	_ = by.cl.close()
+	delete(node.specs, by.cl.c.ID())
+	vsched.WaitIdle()
+	e.byID = ""
 }
 
 type vC27Marks struct{ frames, joins, leaves int }
@@ -216,6 +254,9 @@ func (e *vC27Env) outcome(sp *vSoConn, mk vC27Marks) []string {
 			ch, x.flags, x.streamPosition.Offset, ep, exp, x.info, x.Source, x.metaTTLSeconds, pct, x.subscribingCh != nil))
 	}
 	for i, f := range t.frames[mk.frames:] {
+		if e.byID != "" && strings.Contains(string(f.Raw), e.byID) {
+			continue // join / leave push about the sibling: the two nodes of the double share no broker
+		}
 		raw := norm(string(f.Raw))
 		raw = strings.ReplaceAll(raw, e.epoch, "<cur>")
 		l = append(l, fmt.Sprintf("push %d: %s", i, raw))
@@ -224,10 +265,14 @@ func (e *vC27Env) outcome(sp *vSoConn, mk vC27Marks) []string {
 	l = append(l, fmt.Sprintf("disconnect events: %v", sp.discs))
 	var js, ls []string
 	for _, j := range e.a.rb.joins[mk.joins:] {
-		js = append(js, norm(j))
+		if e.byID == "" || !strings.Contains(j, e.byID) {
+			js = append(js, norm(j))
+		}
 	}
 	for _, j := range e.a.rb.leaves[mk.leaves:] {
-		ls = append(ls, norm(j))
+		if e.byID == "" || !strings.Contains(j, e.byID) {
+			ls = append(ls, norm(j))
+		}
 	}
 	l = append(l, fmt.Sprintf("joins: %v", js))
 	l = append(l, fmt.Sprintf("leaves: %v", ls))
@@ -384,7 +429,7 @@ func vC27Compare(op, ctx string, names []string, maxSize int, run func(sel []int
 			for _, i := range sub {
 				pick = append(pick, sel[i])
 			}
-			if unexplained[vSelKey(pick)] {
+			if len(pick) < len(sel) && unexplained[vSelKey(pick)] { // proper subsets only (the empty set has none)
 				covered = true
 			}
 		}
@@ -461,10 +506,12 @@ func vC27Subscribe(e *vC27Env, m vC27Mode, maxSize int) (int, int, int) {
 		if m.userKind == 1 {
 			opts = append(opts, WithSubscribeAllUsers(true))
 		}
+		by := e.bystander(m, remote)
 		mk := e.marks(sp)
 		_ = e.caller(remote).Subscribe(m.callUser(), vC27Ch, opts...)
 		vsched.WaitIdle()
 		out := e.outcome(sp, mk)
+		e.dropBystander(by, remote)
 		e.dropConn(sp)
 		return out
 	})
@@ -497,10 +544,12 @@ func vC27Unsubscribe(e *vC27Env, m vC27Mode, channel string) (int, int, int) {
 		if m.userKind == 1 {
 			opts = append(opts, WithUnsubscribeAllUsers(true))
 		}
+		by := e.bystander(m, remote)
 		mk := e.marks(sp)
 		_ = e.caller(remote).Unsubscribe(m.callUser(), channel, opts...)
 		vsched.WaitIdle()
 		out := e.outcome(sp, mk)
+		e.dropBystander(by, remote)
 		e.dropConn(sp)
 		return out
 	})
@@ -533,10 +582,12 @@ func vC27Disconnect(e *vC27Env, m vC27Mode) (int, int, int) {
 		if m.userKind == 1 {
 			opts = append(opts, WithDisconnectAllUsers(true))
 		}
+		by := e.bystander(m, remote)
 		mk := e.marks(sp)
 		_ = e.caller(remote).Disconnect(m.callUser(), opts...)
 		vsched.WaitIdle()
 		out := e.outcome(sp, mk)
+		e.dropBystander(by, remote)
 		e.dropConn(sp)
 		return out
 	})
@@ -571,10 +622,12 @@ func vC27Refresh(e *vC27Env, m vC27Mode) (int, int, int) {
 		if m.userKind == 1 {
 			opts = append(opts, WithRefreshAllUsers(true))
 		}
+		by := e.bystander(m, remote)
 		mk := e.marks(sp)
 		_ = e.caller(remote).Refresh(m.callUser(), opts...)
 		vsched.WaitIdle()
 		out := e.outcome(sp, mk)
+		e.dropBystander(by, remote)
 		e.dropConn(sp)
 		return out
 	})
@@ -583,7 +636,7 @@ func vC27Refresh(e *vC27Env, m vC27Mode) (int, int, int) {
 func init() {
 	vsched.Register(&vsched.Harness{
 		Name: "anynode", Props: []string{"C27"}, Kind: "sched",
-		Doc: "two nodes joined by a loop-back Controller; connection on A, Node.Subscribe/Unsubscribe/Disconnect/Refresh called on A (local) and on B (remote) for every subset of the With* options (all of them for unsubscribe/disconnect/refresh; up to size 3 (quick) / 4 (thorough) of the 14 subscribe option values) x 18 (quick) / 36 (thorough) targeting modes (user / all-users / anonymous x client x session x label filter none/match/no-match); oracle: ChannelContext, connection expiry+info, pushes, callbacks, join/leave, presence, disconnect equal in both placements; signature per lost option name",
+		Doc: "two nodes joined by a loop-back Controller; connection on A, Node.Subscribe/Unsubscribe/Disconnect/Refresh called on A (local) and on B (remote) for every subset of the With* options (all of them for unsubscribe/disconnect/refresh; up to size 3 (quick) / 4 (thorough) of the 14 subscribe option values) x 18 (quick) / 36 (thorough) targeting modes (user / all-users / anonymous x client x session x label filter none/match/no-match); sibling/* variants: the same with a second connection of the same user on the calling node that already holds the subscriptions; oracle: ChannelContext, connection expiry+info, pushes, callbacks, join/leave, presence, disconnect equal in both placements; signature per lost option name",
 		Variants: func(tier string) []vsched.Variant {
 			if tier == "thorough" {
 				return []vsched.Variant{
@@ -591,6 +644,10 @@ func init() {
 					{Name: "unsubscribe-allmodes", Bound: 0, Shards: 1, MaxSteps: 1 << 30},
 					{Name: "disconnect-allmodes", Bound: 0, Shards: 1, MaxSteps: 1 << 30},
 					{Name: "refresh-allmodes", Bound: 0, Shards: 2, MaxSteps: 1 << 30},
+					{Name: "sibling/subscribe-le2-allmodes", Bound: 0, Shards: 6, MaxSteps: 1 << 30},
+					{Name: "sibling/unsubscribe-allmodes", Bound: 0, Shards: 1, MaxSteps: 1 << 30},
+					{Name: "sibling/disconnect-allmodes", Bound: 0, Shards: 1, MaxSteps: 1 << 30},
+					{Name: "sibling/refresh-allmodes", Bound: 0, Shards: 2, MaxSteps: 1 << 30},
 				}
 			}
 			return []vsched.Variant{
@@ -598,22 +655,30 @@ func init() {
 				{Name: "unsubscribe", Bound: 0, Shards: 2, MaxSteps: 1 << 30, BudgetS: 150},
 				{Name: "disconnect", Bound: 0, Shards: 2, MaxSteps: 1 << 30, BudgetS: 150},
 				{Name: "refresh", Bound: 0, Shards: 2, MaxSteps: 1 << 30, BudgetS: 150},
+				// a sibling connection of the same user on the calling node (already subscribed): what
+				// happens to it there must not change what the call does to the connection elsewhere
+				{Name: "sibling/subscribe-le2", Bound: 0, Shards: 2, MaxSteps: 1 << 30, BudgetS: 150},
+				{Name: "sibling/unsubscribe", Bound: 0, Shards: 2, MaxSteps: 1 << 30, BudgetS: 150},
+				{Name: "sibling/disconnect", Bound: 0, Shards: 2, MaxSteps: 1 << 30, BudgetS: 150},
+				{Name: "sibling/refresh", Bound: 0, Shards: 2, MaxSteps: 1 << 30, BudgetS: 150},
 			}
 		},
 		Sched: func(v vsched.Variant) func() {
 			modes := vC27Modes(strings.HasSuffix(v.Name, "-allmodes"))
 			opName := strings.TrimSuffix(v.Name, "-allmodes")
+			sibling := ""
+			if strings.HasPrefix(opName, "sibling/") {
+				sibling, opName = "subscribed", strings.TrimPrefix(opName, "sibling/")
+			}
 			return func() {
 				m := modes[vsched.ChooseFree(len(modes))]
 				vsched.Quiet(true)
 				e := vC27NewEnv()
+				e.sibling = sibling
 				var cases, classes, diffs int
 				switch opName {
-				case "subscribe-le3", "subscribe-le4":
-					maxSize := 3
-					if opName == "subscribe-le4" {
-						maxSize = 4
-					}
+				case "subscribe-le3", "subscribe-le4", "subscribe-le2", "subscribe-le1":
+					maxSize := int(opName[len(opName)-1] - '0')
 					cases, classes, diffs = vC27Subscribe(e, m, maxSize)
 				case "unsubscribe":
 					for _, ch := range []string{vC27Ch, vC27Cs, "nosuch"} {
